@@ -216,6 +216,14 @@ theorem process_not_bad (content : Bytes) (o : Oracle) (banned : List Kind) (e :
       generalize decoForest (Src.ofArray content.toArray) done expanded 0 = bf at h
       rcases bf with ⟨bf, n⟩
       simp only at h
+      cases hr : Build.checkRules bf [] with
+      | error x =>
+        simp only [hr] at h
+        injection h with h; subst h
+        unfold buildErrAt
+        split <;> rfl
+      | ok u =>
+      simp only [hr] at h
       cases hc : Build.compile banned bf with
       | ok c => simp [hc] at h
       | error x =>
@@ -297,6 +305,10 @@ theorem process_ok_inv {content : Bytes} {o : Oracle} {banned : List Kind} {c : 
       generalize decoForest (Src.ofArray content.toArray) done expanded 0 = bf at h ⊢
       rcases bf with ⟨bf, n⟩
       simp only at h ⊢
+      cases hr : Build.checkRules bf [] with
+      | error x => simp [hr] at h
+      | ok u =>
+      simp only [hr] at h
       cases hc : Build.compile banned bf with
       | ok c' => simp only [hc] at h; injection h with h; subst h; rfl
       | error x => simp [hc] at h
@@ -617,14 +629,23 @@ theorem processFS_not_bad (fs : PFS) (o : Nat → Oracle) (banned : List Kind) (
       generalize decoForestF fs st.done expanded 0 = bf at h
       rcases bf with ⟨bf, k⟩
       simp only at h
+      have hb : ∀ x : Build.BErr, ∃ i be, buildErrAt st.done expanded x = .build x i be := by
+        intro x; unfold buildErrAt; split <;> exact ⟨_, _, rfl⟩
+      cases hru : Build.checkRules bf [] with
+      | error x =>
+        simp only [hru] at h
+        rcases hb x with ⟨i, be, hbx⟩
+        rw [hbx] at h
+        simp only at h
+        injection h with h; subst h; rfl
+      | ok u =>
+      simp only [hru] at h
       cases hc : Build.compile banned bf with
       | ok c => simp [hc] at h
       | error x =>
         simp only [hc] at h
-        have hb : ∃ i be, buildErrAt st.done expanded x = .build x i be := by
-          unfold buildErrAt; split <;> exact ⟨_, _, rfl⟩
-        rcases hb with ⟨i, be, hb⟩
-        rw [hb] at h
+        rcases hb x with ⟨i, be, hbx⟩
+        rw [hbx] at h
         simp only at h
         injection h with h; subst h; rfl
 
@@ -883,6 +904,29 @@ end
 theorem toBDir_id (d : Src) (done : List RDir) (id : Nat) (x : Dir) : (toBDir d done id x).id = id := by
   unfold toBDir; split <;> rfl
 
+theorem flat_dir_mem (t : Build.BTree) : t.dir ∈ C04B.flat t := by
+  cases t with
+  | node d kids => simp [C04B.flat, Build.BTree.dir]
+
+/-- the ENUM stage locates its diagnostic at a top-level directive of the forest -/
+theorem checkRules_located : ∀ (f : List Build.BTree) (seen : List Bytes) (e : Build.BErr),
+    Build.checkRules f seen = .error e → ∃ d ∈ C04B.flatF f, d.id = e.id
+  | [], seen, e, h => by simp [Build.checkRules] at h
+  | t :: r, seen, e, h => by
+    unfold Build.checkRules at h
+    simp only at h
+    have here : t.dir ∈ C04B.flatF (t :: r) := by
+      simp only [C04B.flatF, List.mem_append]; exact Or.inl (flat_dir_mem t)
+    split at h
+    · split at h
+      · simp only [Build.fail] at h; injection h with h; subst h; exact ⟨_, here, rfl⟩
+      · split at h
+        · simp only [Build.fail] at h; injection h with h; subst h; exact ⟨_, here, rfl⟩
+        · rcases checkRules_located r _ e h with ⟨d, hd, hid⟩
+          exact ⟨d, by simp only [C04B.flatF, List.mem_append]; exact Or.inr hd, hid⟩
+    · rcases checkRules_located r _ e h with ⟨d, hd, hid⟩
+      exact ⟨d, by simp only [C04B.flatF, List.mem_append]; exact Or.inr hd, hid⟩
+
 /-- **C02 for the composed model, catalog-construction stage**: a diagnostic of that stage is located at the keyword
 of a directive of the expanded forest of the document (never at the fallback position of `buildErrAt`) -/
 theorem process_build_error_at {content : Bytes} {o : Oracle} {banned : List Kind} {e : Build.BErr} {i be : Nat}
@@ -906,23 +950,37 @@ theorem process_build_error_at {content : Bytes} {o : Oracle} {banned : List Kin
       generalize hbf : decoForest (Src.ofArray content.toArray) done expanded 0 = bf at h hflat
       rcases bf with ⟨bf, n⟩
       simp only at h hflat
-      cases hc : Build.compile banned bf with
-      | ok c => simp [hc] at h
-      | error x =>
-        simp only [hc] at h
-        rcases C02L.compile_error_located banned bf x hc with ⟨bd, hbd, hid⟩
+      -- both the ENUM stage and the catalog construction locate their diagnostic at a directive of the forest
+      have located : ∀ x : Build.BErr, (∃ bd ∈ C04B.flatF bf, bd.id = x.id) →
+          buildErrAt done expanded x = .build e i be →
+          ∃ forest' done' expanded' y, (Except.ok (forest, done) : Except PErr (List Tree × List RDir)) = .ok (forest', done') ∧
+            expand forest' = .ok expanded' ∧ (preorderF expanded')[e.id]? = some y ∧ y.id = i := by
+        intro x hx hh
+        rcases hx with ⟨bd, hbd, hid⟩
         rw [hflat.1] at hbd
         rcases List.mem_mapIdx.mp hbd with ⟨j, hj, rfl⟩
         rw [toBDir_id] at hid
         have hget : (preorderF expanded)[x.id]? = some (preorderF expanded)[j] := by
           rw [← hid]; simp [List.getElem?_eq_getElem hj]
-        unfold buildErrAt at h
-        rw [hget] at h
-        simp only at h
-        injection h with h
-        injection h with h1 h2 h3
+        unfold buildErrAt at hh
+        rw [hget] at hh
+        simp only at hh
+        injection hh with h1 h2 h3
         subst h1
         exact ⟨forest, done, expanded, _, rfl, he, hget, h2⟩
+      cases hru : Build.checkRules bf [] with
+      | error x =>
+        simp only [hru] at h
+        injection h with h
+        exact located x (checkRules_located bf [] x hru) h
+      | ok u =>
+      simp only [hru] at h
+      cases hc : Build.compile banned bf with
+      | ok c => simp [hc] at h
+      | error x =>
+        simp only [hc] at h
+        injection h with h
+        exact located x (C02L.compile_error_located banned bf x hc) h
 
 /-! ## the order of the steps of the scan phase, from the source
 
